@@ -279,11 +279,17 @@ def call(fn, *a, **k):
 def load_findings(pid):
     """known (recorded, unrepaired) findings of this property: {key pattern: entry}.
     Keys are fnmatch patterns over the oracle's failure keys (clause/call-site/symptom)."""
-    p = os.path.join(VERIF, 'known_findings.json')
-    if not os.path.exists(p):
-        return {}
-    d = json.load(open(p))
-    return {f['key']: f for f in d.get('findings', []) if f.get('property') == pid and f.get('status') == 'known'}
+    import glob
+    out = {}
+    for p in [os.path.join(VERIF, 'known_findings.json')] + sorted(glob.glob(os.path.join(VERIF, 'proposed_fixes', '*-findings.json'))):
+        if not os.path.exists(p):
+            continue
+        d = json.load(open(p))
+        fl = d.get('findings', []) if isinstance(d, dict) else d
+        for f in fl:
+            if f.get('property') == pid and f.get('status', 'known') == 'known' and 'key' in f:
+                out[f['key']] = f
+    return out
 
 
 def match_known(key, known):
